@@ -35,7 +35,7 @@ PROPS = {
     "C06": dict(module="ERP.Properties.C06", suites=["filter", "plugin"], oracle="filter", theorems=[]),
     "C07": dict(module="ERP.Properties.C07", suites=["text", "filter"], oracle="filter", theorems=[]),
     "C08": dict(module="ERP.Properties.C08", suites=["printer", "filter", "region"], oracle="c08", theorems=[]),
-    "C09": dict(module="ERP.Properties.C09Text", suites=["filter", "arc", "stream"], oracle="filter",
+    "C09": dict(module="ERP.Properties.C09Run", suites=["filter", "arc", "stream"], oracle="filter",
                 theorems=[]),
     "C10": dict(module="ERP.Properties.C10", suites=["plugin"], oracle="c10", theorems=[]),
     "C11": dict(module="ERP.Properties.C11", suites=["plugin"], oracle="plugin", theorems=[]),
